@@ -1,6 +1,6 @@
 (** C15 — route announcements do not travel beyond the configured hop limit. *)
-From Coq Require Import List NArith.
-From MM Require Import Model.Flood Proofs.FloodBase Proofs.FloodLimit.
+From Coq Require Import List NArith Bool.
+From MM Require Import Model.Flood Proofs.FloodBase Proofs.FloodLimit Generated.C15.
 Import ListNotations.
 Local Open Scope N_scope.
 
@@ -46,3 +46,27 @@ Example C15_example_unlimited :
   | _ => False
   end.
 Proof. vm_compute. reflexivity. Qed.
+
+Section SourceFacts.
+Import String.
+Local Open Scope string_scope.
+(** Source facts regenerated on this run: routing.max_hops is copied into
+    FloodConfig.MaxHops before the flooder is built and the flooder keeps its
+    configuration; HandleRouteAdvertise returns false before storing when
+    MaxHops > 0 and len(path) > MaxHops ([over_limit]) and returns true without
+    flooding when len(path) >= MaxHops ([at_limit]); SendFullTable skips a
+    group when the path it would send (local id prepended) is longer than
+    MaxHops; config.Validate accepts 1..255, default 16. *)
+Theorem C15_source_facts :
+  gen_handle_hop_checks = "gt:return-false,ge:return-true" /\
+  gen_replay_hop_checks = "gt:continue" /\
+  gen_hop_checks_placed_before_store_and_before_flood = true /\
+  gen_replay_path_has_self_prepended = true /\
+  gen_max_hops_plumbed_into_flood_config = true /\ gen_flooder_keeps_config = true /\
+  gen_flood_config_has_max_hops = true /\ gen_config_validates_1_to_255 = true /\
+  gen_config_default_max_hops = 16 /\
+  (forall lim len, over_limit lim len = ((0 <? lim)%N && (lim <? len)%N)%bool) /\
+  (forall lim len, at_limit lim len = ((0 <? lim)%N && (lim <=? len)%N)%bool).
+Proof. repeat split; reflexivity. Qed.
+End SourceFacts.
+Print Assumptions C15_source_facts.
